@@ -4,8 +4,8 @@
 
    decode / mpv: the reference decoder and value universe of MpSpec.v.  spec_req(s) / spec_areq(s):
    the association-list semantics of a request history (MpScopeSpec.v): the observations (tokens),
-   the error that ended the history if any, and the flag "no array / byte-array child was left with
-   elements unread".  run_req(s) / run_areq(s) / run_obj_root / run_arr_root, find_value_by_key,
+   the error that ended the history if any, and an informational flag "no array / byte-array child
+   was left with elements unread" (a hypothesis before 49f9936, none now).  run_req(s) / run_areq(s) / run_obj_root / run_arr_root, find_value_by_key,
    close_obj: the mirror of the C++ scopes (MpScopeModel.v).  doc_ok: maps at every depth have keys of
    the supported kinds, pairwise different under the library's key equality.  bytes: all < 256.
    olayout body kvs rend: the members kvs lie one after the other from position body to position rend
@@ -51,111 +51,155 @@ Proof. exact find_absent_cycle. Qed.
 Print Assumptions T_C03_find_absent_cycle.
 
 (* every operation (SerializeValue, OpenObjectScope / OpenArrayScope / OpenBinaryScope with the child
-   driven by any sub-history and destroyed, VisitKeys) whose specification answer is error-free and
-   leaves no array child partly read: answers as the association list does and keeps the invariant *)
+   driven by any sub-history — partly read or not — and destroyed, VisitKeys) whose specification answer
+   is error-free: answers as the association list does and keeps the invariant *)
 Theorem T_C03_requests_keep_cursor : forall narrow widen o r body kvs rend,
   bytes body -> olayout body kvs rend -> doc_ok (MMap kvs) = true ->
   forall st p, cursor body kvs rend st p ->
-  forall toks, spec_req narrow widen o kvs r = (toks, None, true) ->
-  exists st' p', run_req narrow widen o r st p = (toks, Go st' p') /\ cursor body kvs rend st' p'.
+  forall toks c, spec_req narrow widen o kvs r = (toks, None, c) ->
+  exists st' p', run_req narrow widen o r st p = (toks, Go st' p', false) /\ cursor body kvs rend st' p'.
 Proof. exact requests_keep_cursor. Qed.
 Print Assumptions T_C03_requests_keep_cursor.
 
-(* ---- the destructor ---- *)
-(* whatever is unread is skipped: from any state satisfying the invariant the destructor leaves the
-   reader exactly behind the object (no exception, fuel not exhausted) *)
+(* ---- the destructors (after 0863f96 / 49f9936 / 3580349) ---- *)
+(* whatever is unread is skipped: from any state satisfying the invariant the object scope's destructor
+   leaves the reader exactly behind the object *)
 Theorem T_C03_close_skips_rest : forall (narrow : N -> option N) (widen : N -> N) body kvs rend st p,
-  cursor body kvs rend st p -> close_obj st p = SOk rend.
+  cursor body kvs rend st p -> close_obj st p = CDone rend false.
 Proof. exact close_spec. Qed.
 Print Assumptions T_C03_close_skips_rest.
 
-(* the destructor's loop never runs out of fuel, whatever the state and the input (ill-formed included) *)
-Theorem T_C03_close_fuel_suffices : forall st rest, close_obj st rest <> SFuel.
-Proof. exact close_obj_fuel. Qed.
-Print Assumptions T_C03_close_fuel_suffices.
+(* ~CMsgPackReadArrayScope / ~CMsgPackReadBinaryScope: on EVERY state and EVERY input (ill-formed
+   included) they return — no exception escapes, fuel is not exhausted *)
+Theorem T_C03_close_array_total : forall st rest, exists r f, close_arr st rest = CDone r f.
+Proof. exact close_arr_total. Qed.
+Print Assumptions T_C03_close_array_total.
+Theorem T_C03_close_binary_total : forall st rest, exists r f, close_bin st rest = CDone r f.
+Proof. exact close_bin_total. Qed.
+Print Assumptions T_C03_close_binary_total.
 
-(* FULL STATEMENT C03_close_never_terminates_statement:
-     forall narrow widen o data h, bytes data -> run_obj_root narrow widen o data h <> FTerm
-   (destroying an object scope never ends in std::terminate) is false: finding F17, witness document 81 *)
-Theorem T_C03_close_truncated_refuted : ~ C03_close_never_terminates_statement.
-Proof. exact close_truncated_refuted. Qed.
-Print Assumptions T_C03_close_truncated_refuted.
+(* ~CMsgPackReadObjectScope (ResetKey() inside the try block since 3580349) on EVERY state and EVERY
+   input, ill-formed included: it returns a reader position.  The model has no terminate outcome any
+   more (cres = CDone | CFuel: every throwing call of the three destructors stands inside
+   try { } catch (...) { }); what this theorem adds is that the fuel of the loops is never exhausted.
+   That the real destructors do not terminate is what the correspondence run checks: an implementation
+   answer TERMINATE can no longer agree with any model answer *)
+Theorem T_C03_close_object_total : forall st rest, exists r f, close_obj st rest = CDone r f.
+Proof. exact close_obj_total. Qed.
+Print Assumptions T_C03_close_object_total.
 
-Theorem T_C03_close_truncated_outside : forall narrow widen o data kvs rest h toks,
+(* no history on no well-formed input ends otherwise than with the association list's answers (see
+   T_C03_mp_refines); on ill-formed input the former terminate witnesses now end in an exception /
+   in a completed load whose next read reports the truncation *)
+Example T_C03_close_terminate_repaired :
+  run_obj_root no_narrow id_widen skip_all term_doc term_prog = Failed [KOpen] (SE EParse) /\
+  run_obj_root no_narrow id_widen skip_all term_doc2 term_prog2 = Done [KOpen; KNone; KClose] [0x05; 0x01] true.
+Proof. exact (conj term_repaired term_repaired2). Qed.
+Print Assumptions T_C03_close_terminate_repaired.
+
+(* the former witness of F17 (document 81, no request): the scope is destroyed, the truncation is left
+   to the next read *)
+Example T_C03_close_truncated_repaired : run_obj_root no_narrow id_widen skip_all [0x81] RNil = Done [KOpen; KClose] [] true.
+Proof. exact f17_repaired. Qed.
+Print Assumptions T_C03_close_truncated_repaired.
+
+(* ---- refinement to the association list: FULL STRENGTH (holds since 49f9936) ---- *)
+(* EVERY error-free history on EVERY well-formed object document, any trailing data: all key kinds
+   and wire formats, any request order, repeats, absent keys, members never requested, nested objects,
+   arrays and byte arrays opened and left partly read, VisitKeys — the answers are those of the
+   association list and after the scope is destroyed the reader stands exactly at the trailing data
+   (c, the "some array child left partly read" flag of the specification, is no longer a hypothesis) *)
+Theorem T_C03_mp_refines : forall narrow widen o data kvs rest h toks c,
   bytes data -> decode data = Some (MMap kvs, rest) -> doc_ok (MMap kvs) = true ->
-  spec_reqs narrow widen o kvs h = (toks, None, true) ->
-  run_obj_root narrow widen o data h <> FTerm.
-Proof. exact close_outside. Qed.
-Print Assumptions T_C03_close_truncated_outside.
-
-Example T_C03_close_truncated_witness : run_obj_root no_narrow id_widen skip_all [0x81] RNil = FTerm.
-Proof. exact f17_model. Qed.
-Print Assumptions T_C03_close_truncated_witness.
-
-(* ---- refinement to the association list ---- *)
-(* FULL STATEMENT C03_mp_refines_statement:
-     forall narrow widen o data kvs rest h toks c,
-       bytes data -> decode data = Some (MMap kvs, rest) -> doc_ok (MMap kvs) = true ->
-       spec_reqs narrow widen o kvs h = (toks, None, c) ->
-       run_obj_root narrow widen o data h = Done (KOpen :: toks ++ [KClose]) rest
-   (EVERY error-free history on EVERY well-formed object document, any trailing data: the answers are
-   those of the association list and after the scope is destroyed the reader stands exactly at the
-   trailing data) is false: finding F14, a child array left partly read *)
-Theorem T_C03_mp_refines_refuted : ~ C03_mp_refines_statement.
-Proof. exact mp_refines_refuted. Qed.
-Print Assumptions T_C03_mp_refines_refuted.
-
-(* outside the defect class (c = false: some array / byte-array child left with elements unread)
-   the full statement holds: all key kinds, all wire formats, any request order, repeats, absent keys,
-   members never requested, nested objects left partly read, arrays read to the end, VisitKeys *)
-Theorem T_C03_mp_refines_outside : forall narrow widen o data kvs rest h toks,
-  bytes data -> decode data = Some (MMap kvs, rest) -> doc_ok (MMap kvs) = true ->
-  spec_reqs narrow widen o kvs h = (toks, None, true) ->
-  run_obj_root narrow widen o data h = Done (KOpen :: toks ++ [KClose]) rest.
+  spec_reqs narrow widen o kvs h = (toks, None, c) ->
+  run_obj_root narrow widen o data h = Done (KOpen :: toks ++ [KClose]) rest false.
 Proof. exact obj_root_refines. Qed.
-Print Assumptions T_C03_mp_refines_outside.
+Print Assumptions T_C03_mp_refines.
 
-(* the witness of F14: {"a":[1,2],"b":5} 7, one element of "a" read, then "b" requested *)
-Example T_C03_mp_refines_witness :
+(* the former witness of F14: {"a":[1,2],"b":5} 7, one element of "a" read, then "b" requested *)
+Example T_C03_mp_refines_f14_repaired :
   decode f14_doc = Some (MMap [(MStr [0x61], MArr [MInt 1; MInt 2]); (MStr [0x62], MInt 5)], [0x07]) /\
   spec_reqs no_narrow id_widen skip_all [(MStr [0x61], MArr [MInt 1; MInt 2]); (MStr [0x62], MInt 5)] f14_prog =
     ([KOpen; KVal (VInt 1); KClose; KVal (VInt 5)], None, false) /\
-  run_obj_root no_narrow id_widen skip_all f14_doc f14_prog = Done [KOpen; KOpen; KVal (VInt 1); KClose; KFalse; KClose] [0x07].
-Proof. exact (conj f14_decodes (conj f14_spec f14_model)). Qed.
-Print Assumptions T_C03_mp_refines_witness.
+  run_obj_root no_narrow id_widen skip_all f14_doc f14_prog =
+    Done (KOpen :: [KOpen; KVal (VInt 1); KClose; KVal (VInt 5)] ++ [KClose]) [0x07] false.
+Proof. exact (conj f14_decodes (conj f14_spec f14_repaired)). Qed.
+Print Assumptions T_C03_mp_refines_f14_repaired.
 
-(* the hypotheses of _outside are satisfiable by a history with reverse order, an absent key, a
-   repeated key, VisitKeys in a nested object, an array and a byte array read to the end *)
+(* a history with reverse order, a byte array and an array left partly read, an absent key, VisitKeys
+   in a nested object, a repeated key *)
 Example T_C03_mp_refines_example :
   decode ex_doc = Some (MMap ex_kvs, [0x2A]) /\ doc_ok (MMap ex_kvs) = true /\
   spec_reqs no_narrow id_widen skip_all ex_kvs ex_prog =
-    ([KOpen; KByte 1; KByte 2; KClose; KOpen; KVal (VInt 1); KVal (VStr [0x73]); KIsEnd true; KClose; KFalse;
-      KOpen; KKeys [KStr [0x78]]; KClose; KVal (VInt 5); KFalse], None, true) /\
+    ([KOpen; KByte 1; KClose; KOpen; KVal (VInt 1); KIsEnd false; KClose; KFalse;
+      KOpen; KKeys [KStr [0x78]]; KClose; KVal (VInt 5); KFalse], None, false) /\
   run_obj_root no_narrow id_widen skip_all ex_doc ex_prog =
-    Done (KOpen :: [KOpen; KByte 1; KByte 2; KClose; KOpen; KVal (VInt 1); KVal (VStr [0x73]); KIsEnd true; KClose; KFalse;
-      KOpen; KKeys [KStr [0x78]]; KClose; KVal (VInt 5); KFalse] ++ [KClose]) [0x2A].
+    Done (KOpen :: [KOpen; KByte 1; KClose; KOpen; KVal (VInt 1); KIsEnd false; KClose; KFalse;
+      KOpen; KKeys [KStr [0x78]]; KClose; KVal (VInt 5); KFalse] ++ [KClose]) [0x2A] false.
 Proof. exact (conj ex_decodes (conj ex_doc_ok (conj ex_spec ex_run))). Qed.
 Print Assumptions T_C03_mp_refines_example.
 
-(* the same for a root array: histories that read it to the end *)
-Theorem T_C03_array_root_refines : forall narrow widen o data vs rest h toks,
+(* ---- Finalize() (8d03f7f): a scope that could not skip its rest fails the load ---- *)
+(* CDone r f / Done toks rest f / (toks, outcome, f): f = the reader's mCloseScopeFailed flag, set by the
+   catch (...) block of a scope destructor.  load_obj = the history, then MsgPackReadRootScope::Finalize()
+   if it returned normally (what LoadObject does).
+   If any scope closed on the way failed to skip its rest, the load ends with ParsingError whatever the
+   program observed and even when nothing is read after the damaged part *)
+Theorem T_C03_close_failure_reported : forall narrow widen o data h toks rest,
+  run_obj_root narrow widen o data h = Done toks rest true ->
+  load_obj narrow widen o data h = LErr toks (SE EParse).
+Proof. exact close_failure_reported_obj. Qed.
+Print Assumptions T_C03_close_failure_reported.
+
+Theorem T_C03_close_failure_reported_array : forall narrow widen o data h toks rest,
+  run_arr_root narrow widen o data h = Done toks rest true ->
+  load_arr narrow widen o data h = LErr toks (SE EParse).
+Proof. exact close_failure_reported_arr. Qed.
+Print Assumptions T_C03_close_failure_reported_array.
+
+(* the flag of a child scope is the one its destructor returns, or-ed to what was set before: never lost *)
+Theorem T_C03_close_failure_propagates : forall (C P : Type) (close : C -> list N -> cres) (notify : P -> P) (pst : P) t cst cp f1 r f2,
+  close cst cp = CDone r f2 ->
+  with_child (after_child close notify pst) (t, Go cst cp, f1) = (KOpen :: t ++ [KClose], Go (notify pst) r, f1 || f2).
+Proof. exact @with_child_flag. Qed.
+Print Assumptions T_C03_close_failure_propagates.
+
+(* on well-formed documents the flag is never set: every error-free history loads (corollary of T_C03_mp_refines) *)
+Theorem T_C03_load_wellformed : forall narrow widen o data kvs rest h toks c,
+  bytes data -> decode data = Some (MMap kvs, rest) -> doc_ok (MMap kvs) = true ->
+  spec_reqs narrow widen o kvs h = (toks, None, c) ->
+  load_obj narrow widen o data h = LOk (KOpen :: toks ++ [KClose]) rest.
+Proof. exact load_obj_refines. Qed.
+Print Assumptions T_C03_load_wellformed.
+
+(* 82 a1 78 05 into a class with member x: x = 5 is loaded, the announced second member cannot be skipped, ParsingError *)
+Example T_C03_close_failure_example :
+  run_obj_root no_narrow id_widen skip_all trunc_doc trunc_prog = Done [KOpen; KVal (VInt 5); KClose] [] true /\
+  load_obj no_narrow id_widen skip_all trunc_doc trunc_prog = LErr [KOpen; KVal (VInt 5); KClose] (SE EParse).
+Proof. exact (conj trunc_run trunc_load). Qed.
+Print Assumptions T_C03_close_failure_example.
+
+(* the same for a root array, read to the end or not (vs' = what the history left unread) *)
+Theorem T_C03_array_root_refines : forall narrow widen o data vs rest h toks c vs',
   bytes data -> decode data = Some (MArr vs, rest) -> doc_ok (MArr vs) = true ->
-  spec_areqs narrow widen o vs h = ((toks, None, true), []) ->
-  run_arr_root narrow widen o data h = Done (KOpen :: toks ++ [KClose]) rest.
+  spec_areqs narrow widen o vs h = ((toks, None, c), vs') ->
+  run_arr_root narrow widen o data h = Done (KOpen :: toks ++ [KClose]) rest false.
 Proof. exact arr_root_refines. Qed.
 Print Assumptions T_C03_array_root_refines.
 
-(* ---- C05, scope level: the array scope's element counter (after the repair 19b4852 / 5bf6807) ---- *)
+(* ---- C05, scope level: the array scope's element counter ---- *)
 (* for every array document and every error-free sequence of element reads and child scopes (any
-   target kinds, any policies): mIndex = number of elements consumed and the reader stands at the start
-   of element mIndex (vs' = the elements not yet consumed, laid out from the reader position p) *)
-Theorem T_C05_array_scope_counts : forall narrow widen o data vs rest l toks vs',
+   target kinds, any policies): mIndex = number of elements consumed, the reader stands at the start
+   of element mIndex (vs' = the elements not yet consumed, laid out from the reader position p), and
+   the destructor passes exactly those *)
+Theorem T_C05_array_scope_counts : forall narrow widen o data vs rest l toks c vs',
   bytes data -> decode data = Some (MArr vs, rest) -> doc_ok (MArr vs) = true ->
-  spec_areqs narrow widen o vs l = ((toks, None, true), vs') ->
+  spec_areqs narrow widen o vs l = ((toks, None, c), vs') ->
   exists body idx p,
     read_array_size o data = ROk (N.of_nat (length vs)) body /\
-    run_areqs narrow widen o l (mkA (N.of_nat (length vs)) 0) body = (toks, Go (mkA (N.of_nat (length vs)) idx) p) /\
-    idx + N.of_nat (length vs') = N.of_nat (length vs) /\ alayout p vs' rest.
+    run_areqs narrow widen o l (mkA (N.of_nat (length vs)) 0) body = (toks, Go (mkA (N.of_nat (length vs)) idx) p, false) /\
+    idx + N.of_nat (length vs') = N.of_nat (length vs) /\ alayout p vs' rest /\
+    close_arr (mkA (N.of_nat (length vs)) idx) p = CDone rest false.
 Proof. exact arr_scope_counts. Qed.
 Print Assumptions T_C05_array_scope_counts.
 
@@ -172,17 +216,23 @@ Theorem T_C05_array_scope_counts_skip : forall narrow widen o data vs rest ts,
     read_array_size o data = ROk (N.of_nat (length vs)) body /\
     run_areqs narrow widen o (gets ts) (mkA (N.of_nat (length vs)) 0) body =
       (map (fun tv => tok_of_tres (typed_spec narrow widen o (fst tv) (snd tv))) (combine ts vs),
-       Go (mkA (N.of_nat (length vs)) (N.of_nat (length ts))) p) /\
-    alayout p (skipn (length ts) vs) rest.
+       Go (mkA (N.of_nat (length vs)) (N.of_nat (length ts))) p, false) /\
+    alayout p (skipn (length ts) vs) rest /\
+    close_arr (mkA (N.of_nat (length vs)) (N.of_nat (length ts))) p = CDone rest false.
 Proof. exact arr_scope_counts_skip. Qed.
 Print Assumptions T_C05_array_scope_counts_skip.
 
-(* the witness of the repaired F12: ["x", 2, 3] into three int32 targets under Skip *)
+(* ["x", 2, 3] into two int32 targets under Skip: skipped, loaded from its own bytes, third one passed *)
 Example T_C05_array_scope_example :
-  run_arr_root no_narrow id_widen skip_all [0x93; 0xA1; 0x78; 0x02; 0x03; 0x07] (gets [TgInt s32; TgInt s32; TgInt s32]) =
-  Done [KOpen; KFalse; KVal (VInt 2); KVal (VInt 3); KClose] [0x07].
+  run_arr_root no_narrow id_widen skip_all [0x93; 0xA1; 0x78; 0x02; 0x03; 0x07] (gets [TgInt s32; TgInt s32]) =
+  Done [KOpen; KFalse; KVal (VInt 2); KClose] [0x07] false.
 Proof. exact ex_array. Qed.
 Print Assumptions T_C05_array_scope_example.
+
+(* SkipValue with the position at the throw (used by the guarded destructors) is SkipValue *)
+Theorem T_C03_skip_at_is_skip : forall d, forget (skip_at d) = skip_value d.
+Proof. exact skip_at_value. Qed.
+Print Assumptions T_C03_skip_at_is_skip.
 
 (* ---- the building blocks, as used above ---- *)
 (* the reference decoder does not depend on its fuel (so member positions are well defined) *)
@@ -218,11 +268,11 @@ Print Assumptions T_C03_read_timestamp.
    - histories that END IN AN ERROR (a mismatching target under the Throw policy, an overflow under
      Throw, "No more items to load", an unsupported key kind): that the model then reports exactly the
      specification's tokens and error and that the unwinding destructors do not terminate
-     (T_C03_mp_refines_outside and T_C03_close_truncated_outside assume an error-free history);
+     (T_C03_mp_refines assumes an error-free history; terminate itself is excluded by the totality
+     theorems of the destructors);
    - fuel sufficiency of find_loop / visit_loop on ILL-FORMED input (proved here for every document
-     the reference decoder accepts: the outcomes above are Go / Done, never NoFuel; for the destructor
-     on every input: T_C03_close_fuel_suffices), and that the Stale outcome of ReadKey is unreachable
-     on arbitrary input (argument: fuel = |input from mStartPos| + 1, every member costs two bytes and
-     the loop wraps at most once);
+     the reference decoder accepts: the outcomes above are Go / Done, never NoFuel; for the three
+     destructors on every input: T_C03_close_*_total), and that the Stale outcome of ReadKey
+     is unreachable on arbitrary input;
    - the stream reader (CMsgPackStreamReader) under the same scopes: tied to this model by the
      correspondence runs (kinds s, S) only. *)
